@@ -1,4 +1,5 @@
 import WV.Model.C06
+import WV.Gen.Skel
 import WV.Proofs.C06
 import WV.Proofs.C06_App
 import WV.Proofs.C06_Order
@@ -181,6 +182,34 @@ theorem backlog_kept_whole (E : Env) (b : Bool) (rs : List Bytes) (hcount : rs.l
   have : (rs.foldl recordReceived App.init).delivered ++ rs = [] ++ rs := by
     simpa [App.init, App.delivered] using hs
   exact List.append_cancel_right this
+
+/-- **flow control only forwards to the transport.**  In the call skeletons regenerated from /repo,
+    `Connection.pauseProducing` / `resumeProducing` / `stopProducing` make exactly one call each, on the
+    transport — in particular `resumeProducing` does not run the record parser itself, outside `dataReceived`'s
+    catch-all — and in the model a `pause` / `resume` made by the application (at top level, from a read
+    callback, from a consumer-Deferred callback, or by a flow-controlled consumer inside `write()`) changes
+    nothing but the transport-call trace.  So `tamper_prefix`, `delivery_exact`, `first_bad_frame_drops`,
+    `reads_served_in_issue_order`, … — which quantify over *all* scripts, `pause`, `resume` and `consumeFC`
+    included — hold unchanged under any back-pressure: a manipulated frame is judged by `dataReceived` whether
+    or not the receiver was paused when it arrived. -/
+theorem flow_control_only_forwards :
+    Gen.Skel.skeleton "Connection.pauseProducing" = [("-", "transport.pauseProducing")] ∧
+    Gen.Skel.skeleton "Connection.resumeProducing" = [("-", "transport.resumeProducing")] ∧
+    Gen.Skel.skeleton "Connection.stopProducing" = [("-", "transport.stopProducing")] ∧
+    (∀ a : App, appCall a [.pause] = a.emit [.tpause]) ∧ (∀ a : App, appCall a [.resume] = a.emit [.tresume]) := by
+  refine ⟨by decide, by decide, by decide, ?_, ?_⟩
+  · intro a
+    have hp : potential a [.script [.pause]] =
+        (2 * a.inbound.length + (a.waiting.map (fun d => szOpt d.cb)).sum + consumerWeight a.consumer) + 3 := by
+      simp [potential, agendaWeight, Frame.weight, szList, Act.sz]
+    simp only [appCall, settle, hp]
+    simp [runAgenda, appStep]
+  · intro a
+    have hp : potential a [.script [.resume]] =
+        (2 * a.inbound.length + (a.waiting.map (fun d => szOpt d.cb)).sum + consumerWeight a.consumer) + 3 := by
+      simp [potential, agendaWeight, Frame.weight, szList, Act.sz]
+    simp only [appCall, settle, hp]
+    simp [runAgenda, appStep]
 
 /-- the wire side (buffer, counters, state, `_error`) after any run is that of feeding the run's bytes
     alone: no read, consumer, callback or loss report influences what is accepted -/
@@ -376,7 +405,7 @@ theorem consumer_mode_same_bytes (E : Env) (b : Bool) (rs : List Bytes) (hcount 
     have hp : potential App.init [.script [.consume (some N) []]] = 6 := by
       simp [potential, App.init, agendaWeight, Frame.weight, szList, Act.sz, consumerWeight]
     simp only [appCall, settle, hp]
-    simp [runAgenda, appStep, App.init, hne, lookupDone, a1]
+    simp [runAgenda, appStep, attachConsumer, App.init, hne, lookupDone, a1]
   have hstep : step E (Conn.init (!b)) (.call [.consume (some N) []]) = { Conn.init (!b) with app := a1 } := by
     simp only [step, Conn.init]; rw [happ]
   have hci : ConsInv a1 := by intro _; rfl
@@ -411,7 +440,8 @@ theorem consume_zero_fires_at_once (a : App) (hc : a.consumer = none) (hs : a.st
       (2 * a.inbound.length + (a.waiting.map (fun d => szOpt d.cb)).sum) + 6 := by
     simp [potential, agendaWeight, Frame.weight, szList, Act.sz, consumerWeight, hc]
   simp only [appCall, settle, hp]
-  simp [runAgenda, appStep, hc, hs, writeToConsumer, consumerDone, disconnectConsumer, lookupDone, App.emit]
+  simp [runAgenda, appStep, attachConsumer, writeEvents, hc, hs, writeToConsumer, consumerDone, disconnectConsumer,
+    lookupDone, App.emit]
 
 /-- the bytes that ride behind the handshake in the same `dataReceived` call are simply the first chunk
     (the model starts at `_negotiationSuccessful`; `Conn.init b leftover` is that state) -/
@@ -502,6 +532,25 @@ example :
     let bad := (blob exEnv k 0 [1, 2, 3]).set 0 1
     let c := feed exEnv (Conn.init false) [frame bad]
     c.state = .hungUp ∧ c.error = some .badNonce ∧ c.app.surfaced = [] := by decide +kernel
+
+/-- back-pressure and tampering together: a flow-controlled consumer pauses in its first `write()`, the altered
+    frame 1 is already in the same segment; the connection hangs up at once all the same, and the later resume
+    changes nothing -/
+example :
+    let k := senderRecordKey exEnv true
+    let wire := frame (blob exEnv k 0 [1, 2, 3]) ++ frame (beFixed 24 1 ++ List.replicate 16 0 ++ [5]) ++
+                frame (blob exEnv k 2 [9])
+    let c := run exEnv (Conn.init false) [.call [.consumeFC none []], .data wire, .call [.resume]]
+    seen c = [.reg, .cwrite [1, 2, 3], .tpause, .lose, .tresume] ∧ c.state = .hungUp ∧
+    c.error = some .cryptoError ∧ c.app.surfaced = [[1, 2, 3]] := by decide +kernel
+
+/-- a read callback pauses the connection and reads again; a replayed frame 0 follows in the same segment -/
+example :
+    let k := senderRecordKey exEnv true
+    let wire := frame (blob exEnv k 0 [1, 2, 3]) ++ frame (blob exEnv k 0 [1, 2, 3]) ++ frame (blob exEnv k 1 [])
+    let c := run exEnv (Conn.init false) [.call [.read [.pause, .read []]], .data wire, .call [.resume], .lost]
+    seen c = [.fired 0 [1, 2, 3], .tpause, .lose, .tresume, .failed 1] ∧ c.state = .hungUp ∧
+    c.error = some .badNonce := by decide +kernel
 
 /-- consumer expecting 3 bytes: gets record 0, fires with 3; the other records stay queued -/
 example :
